@@ -3,9 +3,9 @@
    full token list.  Model only: no proofs here (Proofs/FmtProofs.v).
 
    The model follows the Go source function by function and branch by branch, defects
-   included (comments that no visit function asks for are dropped, mixed key lists are
-   printed digits first, embedded line breaks of doc strings are re-indented, ...): see
-   the comment in front of every function for the Go lines it stands for.
+   included (a comment between two tokens of one field is dropped, embedded line breaks of
+   doc strings are re-indented, ...): see the comment in front of every function for the Go
+   lines it stands for (line numbers of the tree after the repairs 31e9277..ce41d8e).
 
    STATE.  The formatter keeps one piece of state, the set lineComments of the comment
    tokens it has already printed (a Go map keyed by token pointer).  A token is identified
@@ -237,18 +237,48 @@ Definition get_hidden_right (ts : list tok) (token : option ptok) : M string :=
         end
     end.
 
+(* the loop of getHiddenRight (formattor.go:98-107): every comment not printed yet, each after
+   a line break *)
+Fixpoint right_all_loop (hs : list (nat * tok)) (sn : seen) : string * seen :=
+  match hs with
+  | [] => (EmptyString, sn)
+  | (i, t) :: r =>
+      if Nat.eqb (type t) T_LINE_COMMENT then
+        if mem_nat i sn then right_all_loop r sn
+        else let '(s, sn') := right_all_loop r (i :: sn) in (nl ++ text t ++ s, sn')
+      else right_all_loop r sn
+  end.
+
+(* getHiddenRight (formattor.go:92-109) *)
+Definition get_hidden_right_all (ts : list tok) (token : option ptok) : M string :=
+  fun sn =>
+    match token with
+    | None => Ok (EmptyString, sn)
+    | Some k =>
+        match hidden_right ts (p_idx k) with
+        | Panic p => Panic p
+        | Ok hs => Ok (right_all_loop hs sn)
+        end
+    end.
+
+(* getHiddenBeforeClose (formattor.go:113-119): the comments in front of a closing brace *)
+Definition get_hidden_before_close (ts : list tok) (token : option ptok) : M string :=
+  do c <- get_hidden_left ts token;
+  let comments := trim_right_nl c in
+  ret (if string_dec comments EmptyString then EmptyString else add_indent4ln comments).
+
 (* ------------------------------------------------------------------ attributes *)
-(* VisitLengthOfAttribute (173-175), VisitCalculatedFromAttribute (178-180) *)
+(* VisitLengthOfAttribute (207-209), VisitCalculatedFromAttribute (212-214) *)
 Definition visit_length_of_attr (a : length_of) : string := "@lengthOf(" ++ p_text (lo_from a) ++ ")".
 Definition visit_calculated_from_attr (a : calculated_from) : string := "@calculatedFrom(" ++ p_text (cf_from a) ++ ")".
 
-(* VisitPaddingAttribute (183-189); guarded site: PADDING_CHAR *)
+(* VisitPaddingAttribute (217-223); guarded site: PADDING_CHAR *)
 Definition visit_padding_attr (a : padding_attr) : M string :=
   do padChar <- (if non_nil (pa_padding a) then deref "VisitPaddingAttribute: PADDING_CHAR" (pa_padding a)
                  else ret EmptyString);
   ret (p_text (pa_attr a) ++ "(" ++ padChar ++ ")").
 
-(* the switch of VisitFieldDefinitionWithAttribute (152-164) *)
+(* the switch of VisitFieldDefinitionWithAttribute (186-198) *)
 Definition visit_field_attribute (a : field_attribute) : M string :=
   match a with
   | FACalculatedFrom _ x => ret (visit_calculated_from_attr x)
@@ -257,13 +287,15 @@ Definition visit_field_attribute (a : field_attribute) : M string :=
   | FATag _ x => ret ("@tag(" ++ p_text (ta_digits x) ++ ")")
   end.
 
-Fixpoint visit_field_attributes (l : list field_attribute) : M string :=
+(* the loop of VisitFieldDefinitionWithAttribute: getHiddenLeft of the attribute first *)
+Fixpoint visit_field_attributes (ts : list tok) (l : list field_attribute) : M string :=
   match l with
   | [] => ret EmptyString
   | a :: r =>
+      do left <- get_hidden_left ts (Some (sp_start (fa_span a)));
       do s <- visit_field_attribute a;
-      do rest <- visit_field_attributes r;
-      ret (s ++ nl ++ rest)
+      do rest <- visit_field_attributes ts r;
+      ret (left ++ s ++ nl ++ rest)
   end.
 
 (* ctx.Type_().GetText(), ctx.Value().GetText(): the terminals without separators *)
@@ -271,7 +303,7 @@ Definition type_text (t : type_) : string := text_of (toks_type t).
 Definition value_text (v : value) : string := text_of (toks_value v).
 
 (* ------------------------------------------------------------------ declarations *)
-(* VisitLengthFieldDeclaration (310-321); guarded sites: STRING_LITERAL, type (a rule, no
+(* VisitLengthFieldDeclaration (353-364); guarded sites: STRING_LITERAL, type (a rule, no
    dereference of a token: Type_().GetText()) *)
 Definition visit_length_field_decl (d : length_field_decl) : M string :=
   do desc <- (if non_nil (lf_doc d) then
@@ -280,7 +312,7 @@ Definition visit_length_field_decl (d : length_field_decl) : M string :=
   let typ := match lf_type d with Some t => type_text t ++ " " | None => EmptyString end in
   ret (typ ++ p_text (lf_name d) ++ " @lengthOf(" ++ p_text (lo_from (lf_length_of d)) ++ ")" ++ desc ++ ",").
 
-(* VisitCheckSumFieldDeclaration (324-335) *)
+(* VisitCheckSumFieldDeclaration (367-378) *)
 Definition visit_checksum_field_decl (d : checksum_field_decl) : M string :=
   do desc <- (if non_nil (ck_doc d) then
                 do x <- deref "VisitCheckSumFieldDeclaration: STRING_LITERAL" (ck_doc d); ret (" " ++ x)
@@ -288,7 +320,7 @@ Definition visit_checksum_field_decl (d : checksum_field_decl) : M string :=
   let typ := match ck_type d with Some t => type_text t ++ " " | None => EmptyString end in
   ret (typ ++ p_text (ck_name d) ++ " @calculatedFrom(" ++ p_text (cf_from (ck_calculated_from d)) ++ ")" ++ desc ++ ",").
 
-(* VisitMetaDataDeclaration (338-355): the type and the comma are required children of an
+(* VisitMetaDataDeclaration (381-398): the type and the comma are required children of an
    error-free tree (the Go guards on them are always taken); guarded site: STRING_LITERAL *)
 Definition visit_meta_decl (d : meta_decl) : M string :=
   let typeName := type_text (md_type d) in
@@ -297,7 +329,7 @@ Definition visit_meta_decl (d : meta_decl) : M string :=
                      else ret EmptyString);
   ret (trim_space (typeName ++ " " ++ fieldName ++ " " ++ description) ++ ",").
 
-(* VisitRefMetaDataDeclaration (358-372) *)
+(* VisitRefMetaDataDeclaration (401-415) *)
 Definition visit_ref_meta_decl (d : ref_meta_decl) : M string :=
   let typeName := p_text (rm_typ d) in
   let fieldName := p_text (rm_name d) in
@@ -307,7 +339,7 @@ Definition visit_ref_meta_decl (d : ref_meta_decl) : M string :=
   ret (trim_space (typeName ++ " " ++ fieldName ++ description) ++ ",").
 
 (* ------------------------------------------------------------------ match *)
-(* formatStringList (427-446) *)
+(* formatStringList (472-491) *)
 Fixpoint long_list (itemsPerLine : nat) (values : list string) (idx len : nat) : string :=
   match values with
   | [] => EmptyString
@@ -324,20 +356,20 @@ Definition format_string_list (values : list string) (itemsPerLine : nat) : stri
   if Nat.leb (length values) itemsPerLine then "[" ++ join ", " values ++ "]"
   else "[" ++ nl ++ add_indent4ln (long_list itemsPerLine values 0 (length values)) ++ "]".
 
-(* pairCtx.List().AllDIGITS() then AllSTRING() (393-400): the items filtered by type *)
+(* the terminal children of the list that are DIGITS or STRING tokens, in source order *)
 Definition list_items (l : key_list) : list ptok := li_first l :: map snd (li_rest l).
-Definition items_of_type (ty : nat) (l : key_list) : list string :=
-  map p_text (filter (fun k => Nat.eqb (p_type k) ty) (list_items l)).
+Definition is_item (k : ptok) : bool := Nat.eqb (p_type k) T_DIGITS || Nat.eqb (p_type k) T_STRING.
+Definition key_items (l : key_list) : list ptok := filter is_item (list_items l).
 
-(* the switch on the key of a pair (385-402) *)
+(* the switch on the key of a pair (428-447) *)
 Definition match_key_text (k : match_key) : string :=
   match k with
   | MKString t => p_text t
   | MKDigits t => p_text t
-  | MKList l => format_string_list (items_of_type T_DIGITS l ++ items_of_type T_STRING l) 5
+  | MKList l => format_string_list (map p_text (key_items l)) 5
   end.
 
-(* the body of the loop of VisitMatchFieldDeclaration (380-411) *)
+(* the body of the loop of VisitMatchFieldDeclaration (423-456) *)
 Definition visit_match_pair (ts : list tok) (p : match_pair) : M string :=
   do c1 <- get_hidden_left ts (Some (sp_start (mp_span p)));
   let lineComment := trim_right_nl c1 in
@@ -359,13 +391,14 @@ Fixpoint visit_match_pairs (ts : list tok) (ps : list match_pair) : M string :=
       ret (a ++ b)
   end.
 
-(* VisitMatchFieldDeclaration (375-414) *)
+(* VisitMatchFieldDeclaration (418-460) *)
 Definition visit_match_field_decl (ts : list tok) (d : match_field_decl) : M string :=
   do body <- visit_match_pairs ts (mf_pairs d);
-  ret ("match " ++ p_text (mf_key d) ++ " as " ++ p_text (mf_name d) ++ " {" ++ nl ++ body ++ "}").
+  do close <- get_hidden_before_close ts (Some (sp_stop (mf_span d)));
+  ret ("match " ++ p_text (mf_key d) ++ " as " ++ p_text (mf_name d) ++ " {" ++ nl ++ body ++ close ++ "}").
 
 (* ------------------------------------------------------------------ fields *)
-(* VisitFieldDefinition (222-262) and VisitInerObjectField (265-284).
+(* VisitFieldDefinition (257-297) and VisitInerObjectField (300-320).
    Guarded sites: ObjectField fname and STRING_LITERAL; REPEAT and the COMMA of a match field
    are only tested. *)
 Fixpoint visit_field_def (ts : list tok) (f : field_def) : M string :=
@@ -395,7 +428,7 @@ Fixpoint visit_field_def (ts : list tok) (f : field_def) : M string :=
   ret (left ++ body ++ right)
 with visit_iner_object_field (ts : list tok) (rep : option ptok) (d : iner_object_decl) : M string :=
   match d with
-  | InerObjectDecl _ name _ fields _ =>
+  | InerObjectDecl isp name _ fields _ =>
       let head := (if non_nil rep then "repeat " else EmptyString) ++ p_text name ++ " " ++ "{" ++ nl in
       do body <-
         (fix go (fs : list field_def) : M string :=
@@ -406,12 +439,13 @@ with visit_iner_object_field (ts : list tok) (rep : option ptok) (d : iner_objec
                do rest <- go r;
                ret (add_indent4ln result ++ rest)
            end) fields;
-      ret (head ++ body ++ "},")
+      do close <- get_hidden_before_close ts (Some (sp_stop isp));
+      ret (head ++ body ++ close ++ "},")
   end.
 
-(* VisitFieldDefinitionWithAttribute (148-170) *)
+(* VisitFieldDefinitionWithAttribute (181-204) *)
 Definition visit_field_with_attr (ts : list tok) (f : field_with_attr) : M string :=
-  do attrs <- visit_field_attributes (fw_attrs f);
+  do attrs <- visit_field_attributes ts (fw_attrs f);
   do d <- visit_field_def ts (fw_def f);
   ret (attrs ++ d).
 
@@ -425,15 +459,16 @@ Fixpoint visit_fields_with_attr (ts : list tok) (fs : list field_with_attr) : M 
   end.
 
 (* ------------------------------------------------------------------ definitions *)
-(* VisitPacketDefinition (122-145); guarded site: ROOT (only tested) *)
+(* VisitPacketDefinition (154-178); guarded site: ROOT (only tested) *)
 Definition visit_packet_def (ts : list tok) (d : packet_def) : M string :=
   do left <- get_hidden_left ts (Some (sp_start (pd_span d)));
   do body <- visit_fields_with_attr ts (pd_fields d);
+  do close <- get_hidden_before_close ts (Some (sp_stop (pd_span d)));
   do right <- get_hidden_right ts (Some (sp_stop (pd_span d)));
   ret (left ++ (if non_nil (pd_root d) then "root " else EmptyString) ++ "packet " ++ p_text (pd_name d) ++ " {" ++ nl
-       ++ body ++ "}" ++ right).
+       ++ body ++ close ++ "}" ++ right).
 
-(* VisitOptionDeclaration (208-219); guarded site: SEMICOLON (only tested) *)
+(* VisitOptionDeclaration (243-254); guarded site: SEMICOLON (only tested) *)
 Definition visit_option_decl (ts : list tok) (d : option_decl) : M string :=
   do left <- get_hidden_left ts (Some (sp_start (od_span d)));
   do right <- get_hidden_right ts (Some (sp_stop (od_span d)));
@@ -449,31 +484,40 @@ Fixpoint visit_option_decls (ts : list tok) (ds : list option_decl) : M string :
       ret (add_indent4ln a ++ b)
   end.
 
-(* VisitOptionDefinition (192-205) *)
+(* VisitOptionDefinition (226-240) *)
 Definition visit_option_def (ts : list tok) (d : option_def) : M string :=
   do left <- get_hidden_left ts (Some (sp_start (op_span d)));
   do body <- visit_option_decls ts (op_decls d);
+  do close <- get_hidden_before_close ts (Some (sp_stop (op_span d)));
   do right <- get_hidden_right ts (Some (sp_stop (op_span d)));
-  ret (left ++ "options {" ++ nl ++ body ++ "}" ++ right).
+  ret (left ++ "options {" ++ nl ++ body ++ close ++ "}" ++ right).
 
-(* VisitMetaDataDefinition (287-307): no hidden-token call at all *)
-Fixpoint visit_meta_items (items : list meta_item) : M string :=
+(* VisitMetaDataDefinition (323-350): the entries are treated like the fields of a packet *)
+Definition meta_item_span (i : meta_item) : span :=
+  match i with MIDecl d => md_span d | MIRef d => rm_span d end.
+
+Fixpoint visit_meta_items (ts : list tok) (items : list meta_item) : M string :=
   match items with
   | [] => ret EmptyString
   | i :: r =>
+      do left <- get_hidden_left ts (Some (sp_start (meta_item_span i)));
       do result <- match i with
                    | MIRef d => visit_ref_meta_decl d
                    | MIDecl d => visit_meta_decl d
                    end;
-      do rest <- visit_meta_items r;
-      ret (add_indent4ln result ++ rest)
+      do right <- get_hidden_right ts (Some (sp_stop (meta_item_span i)));
+      do rest <- visit_meta_items ts r;
+      ret (add_indent4ln (left ++ result ++ right) ++ rest)
   end.
 
-Definition visit_meta_def (d : meta_def) : M string :=
-  do body <- visit_meta_items (me_items d);
-  ret ("MetaData " ++ p_text (me_name d) ++ " {" ++ nl ++ body ++ "}").
+Definition visit_meta_def (ts : list tok) (d : meta_def) : M string :=
+  do left <- get_hidden_left ts (Some (sp_start (me_span d)));
+  do body <- visit_meta_items ts (me_items d);
+  do close <- get_hidden_before_close ts (Some (sp_stop (me_span d)));
+  do right <- get_hidden_right ts (Some (sp_stop (me_span d)));
+  ret (left ++ "MetaData " ++ p_text (me_name d) ++ " {" ++ nl ++ body ++ close ++ "}" ++ right).
 
-(* the loop of VisitPacket (96-115): the children of an error-free [packet] are rule
+(* the loop of VisitPacket (127-146): the children of an error-free [packet] are rule
    contexts only (the rule has no terminal) *)
 Fixpoint visit_definitions (ts : list tok) (ds : list definition) : M string :=
   match ds with
@@ -481,26 +525,27 @@ Fixpoint visit_definitions (ts : list tok) (ds : list definition) : M string :=
   | d :: r =>
       do s <- match d with
               | DPacket x => visit_packet_def ts x
-              | DMeta x => visit_meta_def x
+              | DMeta x => visit_meta_def ts x
               | DOption x => visit_option_def ts x
               end;
       do rest <- visit_definitions ts r;
       ret (s ++ (match r with [] => EmptyString | _ => nl ++ nl end) ++ rest)
   end.
 
-(* VisitPacket (91-119).  GetStart() is never nil (the EOF token for an empty program),
+(* VisitPacket (122-151).  GetStart() is never nil (the EOF token for an empty program),
    GetStop() is nil for an empty program: guarded in getHiddenRightAtSameLine (67-69) *)
 Definition visit_packet (ts : list tok) (t : pt) : M string :=
   do left <- get_hidden_left ts (Some (pk_start t));
   do body <- visit_definitions ts (pk_defs t);
   do right <- get_hidden_right ts (pk_stop t);
-  ret (left ++ body ++ right).
+  do trailing <- get_hidden_right_all ts (pk_stop t);
+  ret (left ++ body ++ right ++ trailing).
 
-(* tree.Accept(formattor) and the final strings.TrimSpace (FormatPacketDsl, 23-25);
+(* tree.Accept(formattor) and the final strings.TrimRight(.., "\n") (FormatPacketDsl, 23-25);
    [ts]: ALL tokens of the text (hidden ones and the EOF token included) *)
 Definition fmt_pt_res (ts : list tok) (t : pt) : res string :=
   match visit_packet ts t [] with
-  | Ok (s, _) => Ok (trim_space s)
+  | Ok (s, _) => Ok (trim_right_nl s)
   | Panic p => Panic p
   end.
 
